@@ -178,14 +178,15 @@ def explore(fn, budget_s=60.0, per_path_timeout=20.0, max_violations=3,
                     exc = ef.user_exc[0]
                     if isinstance(exc, NotDeterministic):
                         raise NotDeterministic
-                    real_args = deep_realize(dict(pre_args.arguments))
                     sig_ = getattr(exc, 'signature', None)
                     if isinstance(exc, Violation) and sig_ in KNOWN_SIGNATURES:
-                        k = st['known'].setdefault(sig_, dict(count=0, args=_jsonable(real_args),
-                                                              msg=str(exc)[:500]))
+                        # no realisation here: realising unused symbolic arguments would add
+                        # decisions below this leaf and the path would be revisited for ever
+                        k = st['known'].setdefault(sig_, dict(count=0, args=None, msg=str(exc)[:500]))
                         k['count'] += 1
                         st['confirmed'] += 1
                         raise _KnownHit
+                    real_args = deep_realize(dict(pre_args.arguments))
                     rec = dict(args=_jsonable(real_args), exc_type=type(exc).__name__,
                                msg=str(exc)[:2000],
                                signature=getattr(exc, 'signature', None),
